@@ -365,6 +365,18 @@ func TestC19_BehindMiddlewares(t *testing.T) {
 			if hval != "" {
 				req.Header.Set(hname, hval)
 			}
+			// a returning client of a sticky balancer carries that balancer's affinity cookie too
+			if rapid.Bool().Draw(t, "affinityCookie") {
+				ck := "lb=http://backend:8080"
+				if cur := req.Header.Get("Cookie"); cur != "" {
+					ck = cur + "; " + ck
+				}
+				req.Header.Set("Cookie", ck)
+			}
+			// connection options of the client's hop, possibly nominating the very header a limiter keys on
+			if c := rapid.SampledFrom([]string{"", "", "keep-alive", "close", hname, strings.ToLower(hname), "keep-alive, " + hname, "X-Other, TE"}).Draw(t, "connectionHeader"); c != "" {
+				req.Header.Set("Connection", c)
+			}
 			if body != "" {
 				req.Header.Set("Content-Type", "application/x-www-form-urlencoded")
 				if rapid.Bool().Draw(t, "chunkedWithTrailer") {
@@ -389,7 +401,7 @@ func TestC19_BehindMiddlewares(t *testing.T) {
 		var h http.Handler = spy
 		var layers []string
 		for i := rapid.IntRange(1, 3).Draw(t, "depth"); i > 0; i-- {
-			kind := rapid.SampledFrom([]string{"buffer", "buffer-verbose", "stream-verbose", "cbreaker-verbose", "roundrobin-verbose", "trace", "connlimit-verbose"}).Draw(t, "layer")
+			kind := rapid.SampledFrom([]string{"buffer", "buffer-verbose", "stream-verbose", "cbreaker-verbose", "roundrobin-verbose", "trace", "connlimit-verbose", "roundrobin-sticky", "rebalancer-sticky"}).Draw(t, "layer")
 			layers = append(layers, kind)
 			var err error
 			switch kind {
@@ -406,6 +418,23 @@ func TestC19_BehindMiddlewares(t *testing.T) {
 			case "connlimit-verbose":
 				ipx, _ := utils.NewExtractor("client.ip")
 				h, err = connlimit.New(h, ipx, 10, connlimit.Verbose(true), connlimit.Logger(c19FmtLogger{}))
+			case "roundrobin-sticky", "rebalancer-sticky":
+				var rr *roundrobin.RoundRobin
+				u, _ := url.Parse("http://backend:8080")
+				u2, _ := url.Parse("http://backend-2:8080")
+				if kind == "roundrobin-sticky" {
+					rr, err = roundrobin.New(h, roundrobin.EnableStickySession(roundrobin.NewStickySession("lb")))
+					if err == nil {
+						_, _ = rr.UpsertServer(u), rr.UpsertServer(u2)
+						h = rr
+					}
+				} else if rr, err = roundrobin.New(h); err == nil {
+					var rb *roundrobin.Rebalancer
+					if rb, err = roundrobin.NewRebalancer(rr, roundrobin.RebalancerStickySession(roundrobin.NewStickySession("lb"))); err == nil {
+						_, _ = rb.UpsertServer(u), rb.UpsertServer(u2)
+						h = rb
+					}
+				}
 			case "roundrobin-verbose":
 				var rr *roundrobin.RoundRobin
 				rr, err = roundrobin.New(h, roundrobin.Verbose(true), roundrobin.Logger(c19FmtLogger{}))
